@@ -48,6 +48,31 @@ class SendModel(object):
         PCW = max(2, (max(cfg.nodes) + 1).bit_length())
         self.step_no = 0
         self.inputs = []
+        self.llist = self.scan_local_list(cfg)
+
+    @staticmethod
+    def is_queue_snapshot(e):
+        """self._send_queue[:]  /  list(self._send_queue)  /  self._send_queue.copy()"""
+        def is_q(x):
+            return isinstance(x, ast.Attribute) and isinstance(x.value, ast.Name) and x.value.id == "self" and x.attr == "_send_queue"
+        if isinstance(e, ast.Subscript) and is_q(e.value) and isinstance(e.slice, ast.Slice) and e.slice.lower is None and e.slice.upper is None and e.slice.step is None:
+            return True
+        if isinstance(e, ast.Call) and isinstance(e.func, ast.Name) and e.func.id in ("list", "tuple") and len(e.args) == 1 and is_q(e.args[0]):
+            return True
+        if isinstance(e, ast.Call) and isinstance(e.func, ast.Attribute) and e.func.attr == "copy" and is_q(e.func.value) and not e.args:
+            return True
+        return False
+
+    def scan_local_list(self, cfg):
+        """name of the (one) local variable that holds a snapshot of the send queue, or None"""
+        names = set()
+        for l, n in cfg.nodes.items():
+            st = n.ast
+            if n.kind == "stmt" and isinstance(st, ast.Assign) and len(st.targets) == 1 and isinstance(st.targets[0], ast.Name) and self.is_queue_snapshot(st.value):
+                names.add(st.targets[0].id)
+        if len(names) > 1:
+            raise Unsupported("engine B: more than one local snapshot of the send queue")
+        return names.pop() if names else None
 
     # ---- state -------------------------------------------------------------------
     def init(self):
@@ -72,6 +97,11 @@ class SendModel(object):
                 v["pc%d_%d" % (t, d)] = bv(self.cfg.entry if d == 0 else 0, PCW)
                 v["data%d_%d" % (t, d)] = bv(0, W)
                 v["msg%d_%d" % (t, d)] = bv(self.main_ids[t][0] if d == 0 else 0, W)
+                if self.llist is not None:
+                    for i in range(self.Q):
+                        v["ll%dx%d_%d" % (i, t, d)] = bv(0, W)   # local snapshot of the queue
+                    v["lln%d_%d" % (t, d)] = bv(0, W)            # its length
+                    v["lli%d_%d" % (t, d)] = bv(0, W)            # position of the for-loop over it
                 v["ws%d_%d" % (t, d)] = z3.BoolVal(False)       # write begun by this frame
                 v["re%d_%d" % (t, d)] = z3.BoolVal(False)       # re-entrant send already used in this write
             v["iss%d" % self.main_ids[t][0]] = z3.BoolVal(True)
@@ -281,7 +311,25 @@ class SendModel(object):
             return
         if k == "stmt":
             s = node.ast
-            if isinstance(s, ast.Assign):
+            if isinstance(s, ast.Assign) and len(s.targets) == 1 and isinstance(s.targets[0], ast.Name) and s.targets[0].id == self.llist \
+                    and self.is_queue_snapshot(s.value):
+                for i in range(self.Q):
+                    self.setloc(Wk, S, t, "ll%dx" % i, S.v["q%d" % i])
+                self.setloc(Wk, S, t, "lln", S.v["qlen"])
+                self.setloc(Wk, S, t, "lli", bv(0, W))
+            elif isinstance(s, ast.Delete) or (isinstance(s, ast.Expr) and isinstance(s.value, ast.Call) and isinstance(s.value.func, ast.Attribute)
+                                               and s.value.func.attr == "clear"):
+                # del self._send_queue[:]  /  self._send_queue.clear()
+                tg = s.targets[0] if isinstance(s, ast.Delete) else s.value.func.value
+                whole = (isinstance(s, ast.Delete) and len(s.targets) == 1 and isinstance(tg, ast.Subscript) and self.path(tg.value) == "self._send_queue"
+                         and isinstance(tg.slice, ast.Slice) and tg.slice.lower is None and tg.slice.upper is None and tg.slice.step is None) or \
+                        (not isinstance(s, ast.Delete) and self.path(tg) == "self._send_queue")
+                if not whole:
+                    raise Unsupported("engine B: statement %s at line %d" % (type(s).__name__, node.lineno))
+                for i in range(self.Q):
+                    Wk.v["q%d" % i] = bv(0, W)
+                Wk.v["qlen"] = bv(0, W)
+            elif isinstance(s, ast.Assign):
                 if len(s.targets) != 1 or not isinstance(s.targets[0], ast.Name) or s.targets[0].id != "data":
                     raise Unsupported("engine B: assignment target at line %d" % node.lineno)
                 v = self.ev(s.value, Wk, S, t)
@@ -318,6 +366,24 @@ class SendModel(object):
             return
         if k == "nop":
             self.goto(Wk, S, t, node.succ["next"])
+            return
+        if k == "for":
+            st = node.ast
+            if not (self.llist is not None and isinstance(st.iter, ast.Name) and st.iter.id == self.llist and isinstance(st.target, ast.Name) and st.target.id == "data"):
+                raise Unsupported("engine B: for loop at line %d" % node.lineno)
+            i, n_ = self.loc(S, t, "lli"), self.loc(S, t, "lln")
+            more = z3.ULT(i, n_)
+            item = bv(0, W)
+            for j in range(self.Q):
+                item = z3.If(i == j, self.loc(S, t, "ll%dx" % j), item)
+            Wt, Wf = Wk.copy(), Wk.copy()
+            self.setloc(Wt, S, t, "data", item)
+            self.setloc(Wt, S, t, "lli", i + 1)
+            self.goto(Wt, S, t, node.succ["true"])
+            self.setloc(Wf, S, t, "lli", bv(0, W))
+            self.goto(Wf, S, t, node.succ["false"])
+            for key in Wk.v:
+                Wk.v[key] = Wt.v[key] if z3.eq(Wt.v[key], Wf.v[key]) else z3.If(more, Wt.v[key], Wf.v[key])
             return
         raise Unsupported("engine B: location kind %s at line %d" % (k, node.lineno))
 
